@@ -21,6 +21,18 @@ CHECKS = [
   "technique": "runtime monitoring: exhaustive input grid executed on the real engine, closed-form oracle over observed requests / flow traces / error traces at quiescent points",
   "text": "Exhaustive grid (k, default position, truth assignment, 1..3 concurrent tokens, expression language / data source) executed on the real engine; branch requested, flow-trace count and error trace compared with the closed-form rule; storm variants perturb the probe hand-shake.",
   "note": NOTE, "ref": "DESIGN.md 3/C04"},
+ {"id": "C05",
+  "technique": "runtime monitoring: exhaustive fork/join grid on the real engine, window oracle (lower/upper bound of the join release) over requests observed at quiescent points",
+  "text": "Exhaustive grid (branches, truth assignments, default, which branches reach the join, finishing orders) executed on the real engine: fork requests checked exactly, join release checked against the window the statement gives; storm variants with tracker hooks.",
+  "note": NOTE, "ref": "DESIGN.md 3/C05"},
+ {"id": "C07",
+  "technique": "runtime monitoring: cancellation injected at every trace index, goroutine census by pprof label at the quiescent point (leaks, blocked waiters), spin sampling, channel-closure checks",
+  "text": "For a corpus of programs covering every node kind, the context is cancelled after k received traces (k = 0..70 and at the resting state), one process per case; at the quiescent point after cancel() no engine goroutine of the instance may be left, tracer and subscriber channels must be closed, waiters returned, nothing spinning, late task requests carry a cancelled context.",
+  "note": NOTE, "ref": "DESIGN.md 3/C07"},
+ {"id": "C12",
+  "technique": "runtime monitoring: differential stepwise runs (program wrapped in sub-processes vs inlined) on the real engine + reference token game at every quiescent point",
+  "text": "Programs with a PRNG-chosen block wrapped in 1..3 sub-process levels are executed stepwise against the reference and differentially against the unwrapped program (same answer order, same pending requests after every step); storm runs.",
+  "note": NOTE, "ref": "DESIGN.md 3/C12"},
 ]
 
 _claimed = {c["id"] for c in CHECKS}
